@@ -18,6 +18,7 @@ struct VT
   St st = RUNNABLE;
   const void *on = nullptr;
   int join_target = -1;
+  bool timed = false, timed_out = false;
   ucontext_t ctx;
   void *stack = nullptr;
   size_t stack_size = 0;
@@ -74,7 +75,7 @@ static void handover(int kind)
     cur_runnable = true;
   }
   for (VT *t : g.ts)
-    if (t->st == RUNNABLE && t->id != g.cur)
+    if ((t->st == RUNNABLE || (t->st == BLK_CV && t->timed)) && t->id != g.cur)
       ids[n++] = t->id;
   if (n == 0)
   {
@@ -102,6 +103,11 @@ static void handover(int kind)
   int next = ids[idx];
   if (next == g.cur)
     return;
+  if (g.ts[next]->st == BLK_CV)
+  {
+    g.ts[next]->st = RUNNABLE; // timed wait: the (virtual) timeout fires
+    g.ts[next]->timed_out = true;
+  }
   g.out.switches++;
   if (cur_runnable)
     g.out.preemptions++;
@@ -234,6 +240,33 @@ void condition_variable::wait(std::unique_lock<mutex> &ul)
   waiters.push_back(g.cur);
   block(BLK_CV, this);
   m->lock();
+}
+bool condition_variable::timed_wait(std::unique_lock<mutex> &ul)
+{
+  if (!g.active)
+    return true;
+  point(K_CVWAIT, this);
+  g.out.cvwaits++;
+  mutex *m = ul.mutex();
+  VT *me = g.ts[g.cur];
+  int self_id = g.cur;
+  m->release_in_wait();
+  waiters.push_back(self_id);
+  me->timed = true;
+  me->timed_out = false;
+  block(BLK_CV, this);
+  me->timed = false;
+  bool to = me->timed_out;
+  me->timed_out = false;
+  if (to)
+    for (size_t i = 0; i < waiters.size(); i++)
+      if (waiters[i] == self_id)
+      {
+        waiters.erase(waiters.begin() + i);
+        break;
+      }
+  m->lock();
+  return to;
 }
 void condition_variable::notify_all()
 {
